@@ -356,6 +356,61 @@ class C14(object):
                         break
             nontrivial = any(len(v_) for v_ in want_pairs.values())
             digs.append(enginea.sha(sorted(got_keys), np.asarray(sc.labels)))
+            if viol is None and not w0 and nfr >= 2:
+                # the neighbouring row of the sinogram, scanned in the opposite sense (zig-zag), paired frame by frame at equal
+                # omega with pairscans: every pair of non-empty frames at the same angle, with its shared-pixel counts
+                ims2 = []
+                perm2 = list(range(nfr))[::-1] if rnd.random() < 0.7 else list(g.permutation(nfr))
+                for q2 in range(nfr):
+                    src_ = ims[perm2[q2]]
+                    im2 = np.where(g.random((ns, nf)) < 0.7, src_, 0).astype(np.float32)
+                    if rnd.random() < 0.3:
+                        im2[:] = 0
+                    ims2.append(im2)
+                omega2 = omega[perm2]
+                p2 = os.path.join(ctx.scratch, "c14_scan2_%d.h5" % os.getpid())
+                if os.path.exists(p2):
+                    os.remove(p2)
+                with h5py.File(p2, "w") as h:
+                    grp = h.create_group("1.1")
+                    grp.attrs["nframes"], grp.attrs["shape0"], grp.attrs["shape1"] = nfr, ns, nf
+                    rr2, cc2 = zip(*[np.nonzero(im > 0) for im in ims2])
+                    grp["row"] = np.concatenate(rr2).astype(np.uint16)
+                    grp["col"] = np.concatenate(cc2).astype(np.uint16)
+                    grp["intensity"] = np.concatenate([im[im > 0] for im in ims2]).astype(np.float32)
+                    grp["nnz"] = np.array([int((im > 0).sum()) for im in ims2], np.int32)
+                    grp["measurement/rot"] = omega2
+                if any((im > 0).any() for im in ims2) and any((im > 0).any() for im in ims):
+                    with contextlib.redirect_stdout(io.StringIO()):
+                        sc2 = sf.SparseScan(p2, "1.1")
+                        sc2.cplabel(threshold=0, countall=False)
+                        if "labels" not in sc2.names:
+                            sc2.names.append("labels")
+                        sc2.sinorow = 8
+                        pairs2 = sprops.pairscans(sc, sc2)
+                    lab2_of, pos2 = [], 0
+                    for im in ims2:
+                        nq = int((im > 0).sum())
+                        lab2_of.append(np.asarray(sc2.labels)[pos2:pos2 + nq])
+                        pos2 += nq
+                    want2 = {}
+                    for i_ in range(nfr):
+                        j_ = int(np.argmin(np.abs((omega2 % 360) - (omega[i_] % 360))))
+                        if (ims[i_] > 0).any() and (ims2[j_] > 0).any():
+                            ra, ca = np.nonzero(ims[i_] > 0)
+                            rb, cb = np.nonzero(ims2[j_] > 0)
+                            want2[(7, i_, 8, j_)] = pair_counter(ra, ca, lab_of[i_], rb, cb, lab2_of[j_])
+                    got2 = {(int(k_[0]), int(k_[1]), int(k_[2]), int(k_[3])): v_ for k_, v_ in pairs2.items()}
+                    if set(got2) != set(want2):
+                        viol = V("overlaps-linear-wrong", "pairscans reports frame pairs %s; non-empty frames at equal omega are %s" %
+                                 (sorted(got2), sorted(want2)))
+                    else:
+                        for kk, (npr, arr) in got2.items():
+                            gotc = collections.Counter() if not npr else collections.Counter({(int(x[0]), int(x[1])): int(x[2]) for x in arr})
+                            if gotc != want2[kk] or npr != len(want2[kk]):
+                                viol = V("overlaps-linear-wrong", "pairscans, frames %s: reported %s, shared-pixel counts are %s" %
+                                         (kk[1::2], dict(gotc), dict(want2[kk])))
+                                break
         elif scen == "pythreads":
             # 2-3 Python threads (under the seeded Python scheduler, pre-emption at every source line of sparseframe.py)
             # convert their own images at the same time; the compiled kernels run on the instrumented module
